@@ -168,6 +168,10 @@ def judge(t, tw, s, sw, vals, rng, acc=None):
         if ra[0] != rb[0] or (ra[0] == "exc" and ra[1] != rb[1]):
             found.append(("C16|substitution-outcome-differs", f"v={src(v)} builtin={ra[:2]} custom={rb[:2]}"))
             break
+        if ra[0] == "suberr" and ra[1] != rb[1]:
+            # refused for the same reason: the forwarder prints as its target, so the messages agree
+            found.append(("C16|substitution-refused-with-another-message", f"v={src(v)} builtin={ra[1]!r} custom={rb[1]!r}"))
+            break
         if ra[0] == "ok":
             if safe_repr(ra[1], 5000) != safe_repr(rb[1], 5000):
                 found.append(("C16|substitution-result-repr-differs", f"v={src(v)}"))
